@@ -278,10 +278,14 @@ class HierOps:
                 if len(common) >= 1:
                     a = ch.choice(common)
                     b = ch.choice(common)
-                    ok = all(p.index(norm(a)) <= p.index(norm(b)) for p in parents.values())
+                    open_end = ch.weighted([('none', 5), ('a', 2), ('b', 2)])
+                    ok = all(p.index(norm(a)) <= p.index(norm(b)) for p in parents.values()) or open_end != 'none'
                     if ok:
-                        sels.append({'k': 'slice', 'a': enc(a), 'b': enc(b)})
-                        rows = [i for i in rows if self._slice_match(parents[norm_t(m.raw[i][:d])], norm(a), norm(b), norm(m.raw[i][d]))]
+                        sel = {'k': 'slice', 'a': enc(a) if open_end != 'a' else None, 'b': enc(b) if open_end != 'b' else None}
+                        sels.append(sel)
+                        na = norm(a) if sel['a'] is not None else None
+                        nb = norm(b) if sel['b'] is not None else None
+                        rows = [i for i in rows if self._slice_match(parents[norm_t(m.raw[i][:d])], na, nb, norm(m.raw[i][d]))]
                         continue
                 kind = 'all'
             if kind == 'all':
@@ -308,7 +312,9 @@ class HierOps:
 
     @staticmethod
     def _slice_match(order, a, b, x):
-        return order.index(a) <= order.index(x) <= order.index(b)
+        lo = order.index(a) if a is not None else 0
+        hi = order.index(b) if b is not None else len(order) - 1
+        return lo <= order.index(x) <= hi
 
     # ------------------------------------------------------------------ construction
     def _build_ih(self, go, route, kinds, tuples, name, op):
@@ -698,10 +704,11 @@ class HierOps:
                     pick += [g for g in groups if g[0] == nx]
             elif s['k'] == 'slice':
                 labs = [g[0] for g in groups]
-                a, b = norm(dec(s['a'])), norm(dec(s['b']))
-                if a not in labs or b not in labs:
+                a = norm(dec(s['a'])) if s['a'] is not None else None
+                b = norm(dec(s['b'])) if s['b'] is not None else None
+                if (a is not None and a not in labs) or (b is not None and b not in labs):
                     return None
-                pick = groups[labs.index(a): labs.index(b) + 1]
+                pick = groups[(labs.index(a) if a is not None else 0): (labs.index(b) + 1 if b is not None else len(labs))]
             elif s['k'] == 'mask':
                 return [i for i in rows if s['v'][i]] if len(s['v']) == n else None
             out = []
@@ -733,7 +740,7 @@ class HierOps:
             elif s['k'] == 'list':
                 parts.append([dec(x) for x in s['v']])
             elif s['k'] == 'slice':
-                parts.append(slice(dec(s['a']), dec(s['b'])))
+                parts.append(slice(dec(s['a']) if s['a'] is not None else None, dec(s['b']) if s['b'] is not None else None))
             elif s['k'] == 'mask':
                 parts.append(np.array(s['v'], dtype=bool))
         return sf.HLoc[tuple(parts)] if len(parts) > 1 else sf.HLoc[parts[0]]
